@@ -400,11 +400,13 @@ pub fn run_history(cfg: &Cfg, hist: &[Op], emit_at: Option<&mut Emitter>) -> Out
                             step(1);
                         }
                         "JoinNext" => {
+                            // the task submitted last (other tasks are queued ahead of it)
                             let target = {
                                 let s = shc.lock().unwrap();
-                                s.ids.get(t + 1).copied().filter(|id| *id != 0)
+                                let last = s.ids.len() - 1;
+                                s.ids.get(last).copied().filter(|id| *id != 0 && last != t).map(|id| (last, id))
                             };
-                            if let Some(id) = target {
+                            if let Some((tt, id)) = target {
                                 let pool = CoroutinePool::current().expect("current pool");
                                 let r = pool.wait_task_result(id, Duration::from_secs(5));
                                 let txt = match r {
@@ -412,7 +414,7 @@ pub fn run_history(cfg: &Cfg, hist: &[Op], emit_at: Option<&mut Emitter>) -> Out
                                     Ok(Err(m)) => format!("Err({m})"),
                                     Err(e) => format!("IoErr({:?})", e.kind()),
                                 };
-                                shc.lock().unwrap().inner_joins.push((t, t + 1, txt));
+                                shc.lock().unwrap().inner_joins.push((t, tt, txt));
                             }
                             step(1);
                         }
@@ -764,7 +766,7 @@ fn quiescence_checks(
         // a task that nobody cancelled runs to its end
         if want_run && !ti.cancelled && !body_cancelled.contains(&t) && s.started[t] == 1 && !s.finished[t] && expected_result(ti.prog).is_ok() && PROGS[ti.prog] != "CancelSelf" && !any_stopped {
             // was some OTHER task's cancel responsible? (C13: cancelling affects only that task)
-            let someone_cancelled = tasks.iter().any(|x| x.cancelled) || tasks.iter().any(|x| PROGS[x.prog] == "CancelPrev" || PROGS[x.prog] == "CancelSelf");
+            let someone_cancelled = hist.iter().any(|o| matches!(o, Op::Cancel(_))) || tasks.iter().any(|x| x.cancelled) || tasks.iter().any(|x| PROGS[x.prog] == "CancelPrev" || PROGS[x.prog] == "CancelSelf");
             let (prop, clause): (&'static str, &str) = if someone_cancelled { ("C13", "cancel-affects-only-its-target") } else { ("C01", "started-task-finishes") };
             viols.push(Viol { property: prop, clause: clause.into(), class: "-".into(),
                 detail: format!("after {hj} and driving every pool to quiescence, task T{t} (never cancelled) started but never finished") });
